@@ -988,7 +988,7 @@ qs_spec("handle_packet", [("packet", "PacketObj"), ("dcid", "Bytes"), ("quic_ver
 # main.py, what the Demux group leaves: the key-log statements of run() (the `-s` file, a decryption secrets block of the capture),
 # the collection of the exported frames (every TLS session in list order, then every QUIC session), the TCP session lookup /
 # creation of handle_packet. Sessions are opaque objects (σ / τ), their methods externals; κ = a key-log entry, ο = an exported frame.
-GROUPS["Main2"] = dict(imports=["TLX.PyRt", "TLX.MainLoop"], decls=[], options=["set_option linter.unusedVariables false"])
+GROUPS["Main2"] = dict(imports=["TLX.PyRt", "TLX.MainLoop", "TLX.Quic.Packet"], decls=[], options=["set_option linter.unusedVariables false"])
 MAINF = "tlexport/main.py"
 SPECS.append(dict(name="Main.collect", group="Main2", file=MAINF, func="run", theorem="Main2.collect_eq_model",
                   select={"start": "all_decrypted_sessions = []", "end": "for quic_session in quic_sessions:"}, tparams=["σ", "τ", "ο"],
@@ -1015,6 +1015,24 @@ SPECS.append(dict(name="Main.handle_packet", group="Main2", file=MAINF, func="ha
                   obj_methods={("σ", "matches_session"): dict(lean="matches_session", args=["π"], ret="Bool")},
                   mut_methods={("σ", "handle_packet"): dict(lean="feed", args=["π"])},
                   calls={"Session": dict(lean="new_session", args=["π", None, None, None, None, None], ret="σ")}))
+# handle_quic_packet, the session loop and the creation rule (the header parse before it is the Demux group's): a QUIC session
+# is an opaque object τ (its CID sets, "the datagram is on my address pair", "it comes from my client" are externals, as is
+# `handle_packet` = feed); `sorted(candidates, key=lambda c: (-len(c), c))` is the external `sort_cids`
+DGRAM = "session.matches_session_dgram(packet.ip_src, packet.ip_dst, packet.sport, packet.dport)"
+SPECS.append(dict(name="Main.quic_loop", group="Main2", file=MAINF, func="handle_quic_packet", theorem="Main2.quic_loop_eq_model",
+                  select={"start": "for session in quic_sessions:", "end": "if header_type != QuicHeaderType.SHORT:"},
+                  tparams=["τ", "π"], st_tparams=["τ"], exits=True,
+                  params=[("packet", "π"), ("header_type", HT), ("dcid", "Bytes"), ("quic_version", MLV), ("packet_payload", "Bytes")],
+                  places=[("quic_sessions", "quic_sessions", "List τ", "rw")], obj_lists={"quic_sessions": "τ"},
+                  externals=[("client_cids", "τ → List Bytes"), ("server_cids", "τ → List Bytes"), ("on_tuple", "τ → Bool"),
+                             ("from_client", "τ → Bool"), ("sort_cids", "List Bytes → List Bytes"), ("feed", f"τ → π → Bytes → {MLV} → τ"),
+                             ("new_quic_session", "π → τ")],
+                  attr_funcs={("τ", "client_cids"): ("client_cids", "Set Bytes"), ("τ", "server_cids"): ("server_cids", "Set Bytes")},
+                  consts={**HTYPE, DGRAM: ("(on_tuple session)", "Bool"),
+                          "packet.ip_src == session.client_ip and packet.sport == session.client_port": ("(from_client session)", "Bool"),
+                          "sorted(candidates, key=lambda c: (-len(c), c))": ("(sort_cids candidates)", "List Bytes")},
+                  mut_methods={("τ", "handle_packet"): dict(lean="feed", args=["π", "Bytes", MLV])},
+                  calls={"QuicSession": dict(lean="new_quic_session", args=["π", None, None, None, None], ret="τ")}))
 
 THEOREMS = _uniq(theorem_of(s) for s in SPECS)
 
@@ -1768,6 +1786,41 @@ def _main_cases(rng, call):
             out.append(("(fun k ss ports dp sp => (Main.handle_packet (σ := Nat × Nat × Nat) (π := Nat) (fun s q => q % s.2.1 == 0) "
                         "(fun s q => (s.1, s.2.1, s.2.2 + q)) (fun q => (100 + q, 1, 0)) k ss ports dp sp).sessions)",
                         f"{pk.k} {before} [{', '.join(str(x) for x in main.server_ports)}] {pk.dport} {pk.sport}", after))
+        # handle_quic_packet: the session loop (toy sessions: id, CID sets, "on my address pair", "from my client", the CIDs fed)
+        class Q:
+            def __init__(self, ident):
+                self.ident, self.fed = ident, []
+                self.client_cids = {bytes(rng.randrange(3) for _ in range(rng.randint(0, 2))) for _ in range(rng.randint(0, 2))}
+                self.server_cids = {bytes(rng.randrange(3) for _ in range(rng.randint(0, 2))) for _ in range(rng.randint(0, 2))}
+                self.on, self.client_ip, self.client_port = rng.random() < 0.3, rng.choice([b"c", b"x"]), 7
+
+            def matches_session_dgram(self, *a):
+                return self.on
+
+            def handle_packet(self, packet, cid, ver):
+                self.fed.append(cid)
+        savedq = main.QuicSession
+        main.QuicSession = lambda packet, *a: Q(100)
+        try:
+            for _ in range(5):
+                ss = [Q(i) for i in range(rng.randint(0, 3))]
+                lb = lambda st: "[" + ", ".join(_b(x) for x in sorted(st)) + "]"
+                before = "[" + ", ".join(f"({x.ident}, {lb(x.client_cids)}, {lb(x.server_cids)}, {_bool(x.on)}, {_bool(x.client_ip == b'c')}, ([] : List TLX.Bytes))"
+                                         for x in ss) + "]"
+                dcid = bytes(rng.randrange(3) for _ in range(rng.randint(0, 2)))
+                long = rng.random() < 0.5
+                payload = (b"\xc0\x00\x00\x00\x01" + bytes([len(dcid)]) + dcid + b"\x00\x00") if long else b"\x40" + dcid + b"\x09"
+                pk = types.SimpleNamespace(tls_data=payload, ip_src=b"c", ip_dst=b"s", sport=7, dport=443)
+                call(main.handle_quic_packet, pk, [], ss, {}, False)
+                after = "[" + ", ".join(f"({x.ident}, [" + ", ".join(_b(c) for c in x.fed) + "])" for x in ss) + "]"
+                out.append(("(fun ht d v pl ss => match (Main.quic_loop (τ := Nat × List TLX.Bytes × List TLX.Bytes × Bool × Bool × List TLX.Bytes) (π := Unit) "
+                            "(fun s => s.2.1) (fun s => s.2.2.1) (fun s => s.2.2.2.1) (fun s => s.2.2.2.2.1) TLX.MainLoop.sortCids "
+                            "(fun s _ c _ => (s.1, s.2.1, s.2.2.1, s.2.2.2.1, s.2.2.2.2.1, s.2.2.2.2.2 ++ [c])) (fun _ => (100, [], [], false, false, [])) "
+                            "() ht d v pl ss) with | .ok _ st => st.quic_sessions.map (fun s => (s.1, s.2.2.2.2.2)) | .raised _ _ => [])",
+                            f"TLX.Quic.HType.{'long' if long else 'short'} {_b(dcid if long else b'')} TLX.MainLoop.Version.{'v1' if long else 'unknown'} {_b(payload)} {before}",
+                            after))
+        finally:
+            main.QuicSession = savedq
     finally:
         main.Session = saved[0]
         main.server_ports[:] = saved[1]
